@@ -774,6 +774,22 @@ def const_int_(o):
         return None
 
 
+def range_end_sites(ctx, b):
+    """[(block of the inclusive-range construction, [blocks of saturating decrements on its end])]"""
+    out = []
+    searches = [i for i, t in b.calls() if re.search(r"::binary_search(_by|_by_key)?(::<.*>)?$|::partition_point", t["f"] or "")]
+    if not searches:
+        return out
+    decs = set(_sat_dec_closures(ctx, b))
+    for i, t in b.calls():
+        if not re.search(r"RangeInclusive::<usize>::new$", t["f"] or "") or len(t["a"]) < 2 or b.bbs[i]["cleanup"]:
+            continue
+        P = prov.operand_origins(b, t["a"][1], deep=True)
+        via = {r[2] for r in P.roots if r[0] == "call"} | {bb for _, bb in P.via}
+        out.append((i, sorted(via & decs)))
+    return out
+
+
 def rule_st_range_end(ctx, R):
     """XRANGE / XREVRANGE return exactly the entries with start <= id <= end.  The inclusive end
     position of a range read is the last entry not greater than `end`; when the search says every
@@ -784,17 +800,8 @@ def rule_st_range_end(ctx, R):
     for fn, b in sorted(ctx.prog.bodies.items()):
         if not fn.startswith("storage::stream::") or "::tests::" in fn or b.kind == "Closure":
             continue
-        searches = [i for i, t in b.calls() if re.search(r"::binary_search(_by|_by_key)?(::<.*>)?$|::partition_point", t["f"] or "")]
-        if not searches:
-            continue
-        decs = set(_sat_dec_closures(ctx, b))
-        for i, t in b.calls():
-            if not re.search(r"RangeInclusive::<usize>::new$", t["f"] or "") or len(t["a"]) < 2 or b.bbs[i]["cleanup"]:
-                continue
+        for i, hit in range_end_sites(ctx, b):
             n += 1
-            P = prov.operand_origins(b, t["a"][1], deep=True)
-            via = {r[2] for r in P.roots if r[0] == "call"} | {bb for _, bb in P.via}
-            hit = sorted(via & decs)
             R.inst(fn, "inclusive-range#%d" % 0, {"function": fn, "at": b.loc(i), "end_is_a_saturating_decrement_of_an_insertion_point": bool(hit)})
             if hit:
                 R.finding(fn, "inclusive-end:insertion-point-0-becomes-entry-0",
